@@ -178,4 +178,69 @@ theorem bus_balanced {K} (c : Circuit K) (p : Prep) (h : genPrep c = some p)
   · exact Or.inr hz
   · exact Or.inl (hwf s hz)
 
+
+/-! ### Non-primitive rows: the same invariant for the extended scan -/
+
+theorem scanR_inv_aux {K} (privs hints : List Nat) (ops : List (ROp K)) (s : RoleState) (h : Inv s) :
+    Inv (ops.foldl (fun s op => (op.requests privs hints s.defined).foldl RoleState.serve s) s) := by
+  induction ops generalizing s with
+  | nil => simpa using h
+  | cons op ops ih => exact ih _ (serveAll_inv _ s h)
+
+/-- The role scan over primitive *and* table-backed non-primitive ops keeps the invariant, whatever
+the plug-ins' request functions return. -/
+theorem scanR_inv {K} (privs hints : List Nat) (ops : List (ROp K)) : Inv (scanR privs hints ops) :=
+  scanR_inv_aux privs hints ops _ inv_init
+
+/-- **C09 / one creator, with non-primitive rows.** -/
+theorem one_creator_npo {K} (privs hints : List Nat) (ops : List (ROp K)) (s : Nat) :
+    nCreators (scanR privs hints ops).events s ≤ 1 := (scanR_inv privs hints ops).creators_le s
+
+/-- **C09 / multiplicity = reads, with non-primitive rows**: the read count a creator is given
+equals the number of reader events of the scan (plug-in reads and duplicate outputs included). -/
+theorem mult_eq_reads_npo {K} (privs hints : List Nat) (ops : List (ROp K)) (s : Nat) :
+    readsOf (scanR privs hints ops).reads s = nReaders (scanR privs hints ops).events s :=
+  (scanR_inv privs hints ops).reads_eq s
+
+/-- **C09 / balance of the extended scan**: with the scan's own multiplicities (`eventMult`) the net
+multiplicity of a slot is zero iff it has a creator or no reader. The plug-in conversions are *not*
+covered: `npoMult` / `freeMult` deviate from `eventMult` exactly in findings F-C09N-1 / F-C09N-3. -/
+theorem net_zero_iff_npo {K} (privs hints : List Nat) (ops : List (ROp K)) (s : Nat) :
+    netOf (scanR privs hints ops).reads (scanR privs hints ops).events s = 0 ↔
+      (s ∈ (scanR privs hints ops).defined ∨ readsOf (scanR privs hints ops).reads s = 0) := by
+  have i := scanR_inv privs hints ops
+  rw [netOf_formula]
+  have hr := i.reads_eq s
+  have hd := i.defined_iff s
+  have hc := i.creators_le s
+  rw [← hr]
+  constructor
+  · intro hz
+    by_cases hdef : s ∈ (scanR privs hints ops).defined
+    · exact Or.inl hdef
+    · right
+      have h0 : nCreators (scanR privs hints ops).events s = 0 := by
+        have := hd.not.mp hdef; omega
+      rw [h0] at hz
+      have : (readsOf (scanR privs hints ops).reads s : Int) = 0 := by
+        simp only [Nat.cast_zero, zero_mul, zero_sub, neg_eq_zero] at hz; exact hz
+      exact_mod_cast this
+  · rintro (hdef | hz)
+    · have h1 : nCreators (scanR privs hints ops).events s = 1 := by
+        have := hd.mp hdef; omega
+      rw [h1]; ring
+    · rw [hz]; simp
+
+/-- Non-vacuity / negation witness for the conversion (finding F-C09N-1): two rows of one table
+exposing the same slot, one ALU reader. The scan is balanced; after the conversion's per-table
+duplicate rule both rows send −1 and the slot has no creator. -/
+example :
+    let ops : List (ROp Nat) := [.npo ⟨1, [], [7], []⟩, .npo ⟨1, [], [7], []⟩, .prim (.alu .add 7 7 none 9 none)]
+    let st := scanR [] [] ops
+    let tags := ops.flatMap (ROp.tags [] [])
+    netOf st.reads st.events 7 = 0 ∧
+      ((st.events.zip tags).filter (fun et => et.1.1 == 7)).map
+        (fun et => npoMult st.reads (dupsOf st.events tags) et.1 et.2) = [-1, -1, -1, -1] := by
+  decide
+
 end P3R.C09
